@@ -203,8 +203,14 @@ type JSONBytes struct {
 	B  []byte   `parquet:"b,json"`
 	So string   `parquet:"so,optional,json"`
 	Bo []byte   `parquet:"bo,optional,json"`
-	Ps *string  `parquet:"ps,json"`
 	Ls []string `parquet:"ls,list" parquet-element:",json"`
+}
+
+// pointers with the json tag: the column is REQUIRED (known finding
+// json-pointer-nil: the paths disagree on the nil pointer)
+type JSONPtr struct {
+	Ps *string `parquet:"ps,json"`
+	Pj *JIn    `parquet:"pj,json"`
 }
 
 type JIn struct {
@@ -224,7 +230,6 @@ type JSONValues struct {
 
 type JSONValuesOpt struct {
 	St JIn              `parquet:"st,optional,json"`
-	Ps *JIn             `parquet:"ps,json"`
 	M  map[string]int64 `parquet:"m,optional,json"`
 	I  int64            `parquet:"i,optional,json"`
 	G  []struct {
@@ -457,7 +462,7 @@ type HugeLists struct {
 func catalogue2() []*cat {
 	return []*cat{
 		mk[IntWidths]("IntWidths"),
-		mk[IntNarrow]("IntNarrow"),
+		mk[IntNarrow]("IntNarrow", noDeep),
 		mk[IntCross]("IntCross"),
 		mk[IntOptPtr]("IntOptPtr"),
 		mk[UintptrT]("UintptrT"),
@@ -469,12 +474,13 @@ func catalogue2() []*cat {
 		mk[TimeDatePtr]("TimeDatePtr", noRecon, nodeGen),
 		mk[TimeTimesOpt]("TimeTimesOpt", noRecon, nodeGen),
 		mk[TimeNested]("TimeNested", noRecon, nodeGen),
-		mk[Durations]("Durations"),
+		mk[Durations]("Durations", noRecon),
 		mk[UUIDs]("UUIDs", nodeGen),
 		mk[Strings]("Strings"),
 		mk[Intervals]("Intervals"),
 		mk[Geo]("Geo"),
 		mk[JSONBytes]("JSONBytes"),
+		mk[JSONPtr]("JSONPtr", noRecon),
 		mk[JSONValues]("JSONValues", noRecon),
 		mk[JSONValuesOpt]("JSONValuesOpt", noRecon),
 		mk[RawMessages]("RawMessages", nodeGen),
